@@ -345,6 +345,7 @@ class Image(Traversable):
                 candidate_names[candidate_name] = []
             candidate_names[candidate_name].append(element)
 
+        generated_names = set()
         for name, subelements in candidate_names.items():
             if len(subelements) == 1:
                 element = subelements[0]
@@ -357,17 +358,20 @@ class Image(Traversable):
                 if i > 1:
                     next_name = self._add_count_to_name(name, i)
                     j = 0
-                    while (next_name in candidate_names.keys()):
+                    while (next_name in candidate_names.keys()
+                            or next_name in generated_names):
                         i += 1
                         j += 1
                         next_name = self._add_count_to_name(name, i)
-                        if j > len(candidate_names.keys()):
+                        if j > len(candidate_names.keys()) \
+                                + len(generated_names):
                             # This should never(?) happen
                             raise CouldNotDetermineName(
                                 "Unable to determine proper (sanitized) "
                                 f"name for {element.name}. Too many name "
                                 "collisions."
                             )
+                    generated_names.add(next_name)
                 else:
                     next_name = name
                 f_set(element, next_name)
